@@ -167,6 +167,7 @@ def main():
         tier = "quick"
     seed = int(os.environ.get("VERIF_SEED", "20260926"))
     t0 = time.time()
+    core.sweep_work()
     violations = 0
     out_lines = []
 
